@@ -634,7 +634,10 @@ Definition move_element_local (self mv : id) (pos m version : N) : W id :=
                   | [] => wret tt
                   | re :: rr => raw_set_character_data re (DString refstr) version;; upd_refs rr
                   end) refs;;
-               modify_model m (fun y => set_origins y (assoc_insert refstr refs (m_origins y)))
+               (* fix: entry(refstr).or_default().extend(refs) *)
+               modify_model m (fun y => set_origins y (match assoc_get refstr (m_origins y) with
+                                                        | Some l0 => assoc_insert refstr (l0 ++ refs) (m_origins y)
+                                                        | None => m_origins y ++ [(refstr, refs)] end))
              | None => wret tt
              end
            | None => wret tt
@@ -707,7 +710,7 @@ Definition move_element_full (self mv : id) (pos m m_src version : N) : W id :=
                add_reference_origin m refstr re
              | None => add_reference_origin m old_ref re
              end
-           else wret tt);; each r
+           else add_reference_origin m old_ref re);; each r   (* else branch: fix — references to outside targets are registered too *)
         end) orig_refs;;
      content_insert self pos (CElem mv);;
      wret mv
@@ -739,7 +742,7 @@ Fixpoint remove_internal (fuel : nat) (i : id) (m : N) (path : list N) {struct f
         | CElem c :: rest => remove_internal f c m path';; kids rest
         | CData _ :: rest => kids rest
         end) (n_content n);;
-     modify_node i (fun x => set_parent (set_content x []) PNone))%W
+     modify_node i (fun x => set_parent (set_files (set_content x []) []) PNone))%W   (* file_membership.clear(): fix 6db19c9 *)
   end.
 
 (* ElementRaw::remove_sub_element *)
@@ -881,7 +884,10 @@ Definition e_set_item_name (h : N) (new_name : list N) : W unit :=
                               | _ :: tl => set_node re (set_content rn (CData (DString refpath_new) :: tl))
                               end;; upd_refs rr
                             end) reflist;;
-                         modify_model m (fun z => set_origins z (assoc_insert refpath_new reflist (m_origins z)))
+                         (* fix: entry(refpath_new).or_default().extend(reflist) *)
+                         modify_model m (fun z => set_origins z (match assoc_get refpath_new (m_origins z) with
+                                                                  | Some l0 => assoc_insert refpath_new (l0 ++ reflist) (m_origins z)
+                                                                  | None => m_origins z ++ [(refpath_new, reflist)] end))
                        | None => wret tt
                        end
                      else wret tt
@@ -899,7 +905,10 @@ Definition e_set_item_name (h : N) (new_name : list N) : W unit :=
 Definition e_set_character_data (h : N) (v0 : cdata) : W unit :=
   (do n <- get_node h;
    do mode <- wl (content_mode T (n_type n));
-   if negb ((mode =? MCharacters) || (mode =? MMixed)) then wfail IncorrectContentType else
+   (* fix 9caed4a: mixed content is only replaced while it contains no sub-elements *)
+   if negb ((mode =? MCharacters)
+            || ((mode =? MMixed) && negb (existsb (fun it => match it with CElem _ => true | CData _ => false end) (n_content n))))
+   then wfail IncorrectContentType else
    do spec <- wl (chardata_spec T (n_type n));
    match spec with
    | None => wfail IncorrectContentType
@@ -916,7 +925,24 @@ Definition e_set_character_data (h : N) (v0 : cdata) : W unit :=
      do prev_path <- (if (n_name n =? SHORT) && match cd0 with Some _ => true | None => false end then
                         do p <- parent_of n;
                         match p with
-                        | Some pi => do pp <- path_id pi; wret (Some pp)
+                        | Some pi =>
+                          do pp <- path_id pi;
+                          (* fix: the new name must not produce a path that another element already has *)
+                          do pn <- get_node pi;
+                          do old <- item_name pn;
+                          (match old, v with
+                           | Some old_name, DString new_name =>
+                             match strip_suffix old_name pp with
+                             | Some base =>
+                               if negb (bytes_eqb new_name old_name) then
+                                 do ex <- get_element_by_path m (base ++ new_name);
+                                 match ex with Some _ => wfail DuplicateItemName | None => wret tt end
+                               else wret tt
+                             | None => wret tt
+                             end
+                           | _, _ => wret tt
+                           end);;
+                          wret (Some pp)
                         | None => wret None
                         end
                       else wret None);
@@ -1252,7 +1278,14 @@ Definition m_remove_file (m f : N) : W unit :=
      let files' := swap_remove_at (m_files x) pos in
      set_model m (set_mfiles x files');;
      if is_empty files' then
-       modify_node (m_root x) (fun r => set_content r []);;
+       (* fix 3b8f454: every sub-element of the root is removed through remove_sub_element (results ignored) *)
+       do r <- get_node (m_root x);
+       (fix each (l : list citem) : W unit :=
+          match l with
+          | [] => wret tt
+          | CElem c :: rest => (do _ <- wtry (e_remove_sub_element (m_root x) c); each rest)
+          | CData _ :: rest => each rest
+          end) (n_content r);;
        set_file_membership (m_root x) [];;
        modify_model m (fun y => set_origins (set_idents y []) [])
      else
